@@ -499,8 +499,8 @@ def run(ctx: core.Ctx):
     flag_names = ["slice", "element_at", "try_element_at", "rint", "sequence", "unix_millis", "array_position(NULL)",
                   "nanvl(NULL)", "levenshtein(NULL)", "slice(negative start)", "factorial(outside 0..20)", "array_append(NULL)",
                   "array_union(NULL)", "overlay(NULL)", "concat(NULL)", "left/right(negative length)", "trunc/date_trunc unit spellings",
-                  "substr(position 0)", "soundex (every string)"]
-    verdicts = {}
+                  "substr(position 0)", "soundex (every string)", "array_position(NULL) on a Spark session", "array_position(NULL) on a Databricks session"]
+    verdicts, verdicts_raw = {}, {}
     if proved:
         outp = ctx.coq_eval("From Coq Require Import List Bool.\nFrom SF Require Import C17.Emul C17.Emul2 C17.EmulCheck.\nFrom Gen Require Import C17Facts.\n"
                             "Import ListNotations.\nDefinition flags := [slice_cfg_ok c17_slice; element_at_cfg_exact c17_element_at; "
@@ -509,13 +509,27 @@ def run(ctx: core.Ctx):
                             "slice_rebase_exact c17_slice_rebase && slice_cfg_ok c17_slice; fact_guard_exact c17_fact_guard; c17_append_guard; "
                             "c17_union_guard; match c17_overlay_glue with GluePipes => true | _ => false end; "
                             "match c17_concat_glue with GluePipes => true | _ => false end; "
-                            "floor_exact c17_left_floor && floor_exact c17_right_floor; units_table_ok c17_trunc_units; remap_exact c17_substr_remap; soundex_cfg_exact c17_soundex].",
+                            "floor_exact c17_left_floor && floor_exact c17_right_floor; units_table_ok c17_trunc_units; remap_exact c17_substr_remap; soundex_cfg_exact c17_soundex; pos_cfg_exact c17_pos_spark; pos_cfg_exact c17_pos_databricks].",
                             "flags")
         import re as _re
         vals = _re.findall(r"\b(true|false)\b", outp.split("=", 1)[1] if "=" in outp else "")
         if len(vals) == len(flag_names):
+            verdicts_raw = dict(zip(flag_names, vals))
             verdicts = {n: ("exact on the whole stated domain (C17_verdict_* proves the `then` branch)" if v == "true"
                             else "defect characterised (C17_verdict_* proves the `else` branch)") for n, v in zip(flag_names, vals)}
+    # witness of the fixed finding C17/spark-session/array_position in the quick tier: the shape sqlframe builds for a Spark /
+    # Databricks session, evaluated by the Coq model on a NULL array (the engine's own ARRAY_POSITION(NULL, v) is NULL)
+    for eng in ("Spark", "Databricks"):
+        v = verdicts_raw.get(f"array_position(NULL) on a {eng} session")
+        if v == "false":
+            ctx.deviation("C17/spark-session/array_position",
+                          f"through a {eng}-backed session F.array_position(col, v) on a NULL array: PySpark NULL, sqlframe 0 "
+                          f"(the COALESCE(ARRAY_POSITION(col, v), 0) is not guarded by col IS NOT NULL for this engine)",
+                          {"function": "array_position", "aspect": "spark-session", "engine": eng.lower(),
+                           "call": "F.array_position('a', 5) on a row whose array is NULL", "spark": None, "sqlframe_predicted_by_model": 0,
+                           "how": "T1 fact c17_pos_" + eng.lower() + " (shape of functions.array_position under session._is_" + eng.lower()
+                                  + ") evaluated by Emul.duck_array_position; recorded PySpark value: array_position#0 row 5 = NULL; "
+                                    "the thorough tier runs the session live"})
     # ---- thorough: Spark-backed sqlframe session + fresh live recording ------------------------------------------------
     live = {}
     if ctx.tier == "thorough":
@@ -523,7 +537,10 @@ def run(ctx: core.Ctx):
 
     # ---- evidence --------------------------------------------------------------------------------------------------
     exported = exported_functions()
-    unknown = [f for f in exported if f not in exercised and f not in cc.NOT_EXERCISED]
+    import sqlframe.duckdb.functions as _F
+    covered_objs = {id(getattr(_F, f)) for f in exported if f in exercised or f in cc.NOT_EXERCISED}
+    # a module-level alias (`column = col`) is the same function object under another name, not a new function
+    unknown = [f for f in exported if f not in exercised and f not in cc.NOT_EXERCISED and id(getattr(_F, f)) not in covered_objs]
     if unknown:
         ctx.broken("coverage:function-without-template", "exported by sqlframe.duckdb.functions but neither exercised nor listed: "
                    + ", ".join(unknown))
